@@ -643,6 +643,69 @@ def _judge_standalone_train(rng, tag):
     return None
 
 
+def _judge_flag_parity(rng, tag):
+    """sub-model sender (a >> b) inside the model r >> a >> b with r <<= (a >> b): after (i) ONE stand-alone call of b, or (ii) a run that
+    failed inside b (a already called in that step), the next run's first step must hand r the sender's pre-existing output b.state(),
+    and b must be called once per step"""
+    import reservoirpy as rpy
+    rpy.verbosity(0)
+    from reservoirpy.node import Node
+    out = []
+    for route in ("standalone-call", "failed-step"):
+        seen, cnt = [], {"n": 0, "boom": None}
+
+        def init(node, x=None, **kw):
+            node.set_input_dim(x.shape[1]); node.set_output_dim(x.shape[1])
+
+        def fb_init(node, feedback=None):
+            node.set_feedback_dim(feedback.shape[1])
+
+        def fwd(node, x):
+            fb = np.asarray(node.feedback()).reshape(1, -1)
+            seen.append(float(fb[0, 0]))
+            return x + fb[:, :1] / 8.0
+
+        def acc(node, x):
+            return node.state() + x
+
+        def accb(node, x):
+            cnt["n"] += 1
+            if cnt["boom"] is not None and cnt["n"] == cnt["boom"]:
+                raise RuntimeError("boom")
+            return node.state() + x
+        sc = {"tag": tag, "kind": "flag-parity", "route": route}
+        X = scen.fl(scengen.rows(rng, 3, 1)) + 1.0
+        try:
+            R = Node(forward=fwd, initializer=init, fb_initializer=fb_init, name="fp%s%s_R" % (tag, route[:2]))
+            a = Node(forward=acc, initializer=init, name="fp%s%s_a" % (tag, route[:2]))
+            b = Node(forward=accb, initializer=init, name="fp%s%s_b" % (tag, route[:2]))
+            m = R >> a >> b
+            R <<= (a >> b)
+            m.run(X)
+            if route == "standalone-call":
+                b.call(np.zeros((1, 1)))
+            else:
+                cnt["boom"] = cnt["n"] + 2
+                try:
+                    m.run(X)
+                except RuntimeError:
+                    pass
+                cnt["boom"] = None
+            seen.clear()
+            before, nb = float(b.state()[0, 0]), cnt["n"]
+            m.run(X)
+        except Exception as ex:  # noqa: BLE001
+            out.append(_viol("submodel-sender:flag-parity:exception", "route %s raises %r" % (route, ex), sc))
+            continue
+        if not seen or abs(seen[0] - before) > 1e-9 or cnt["n"] - nb != len(X):
+            out.append(_viol("submodel-sender:flag-parity-desync:%s" % route,
+                             "model r >> a >> b with r <<= (a >> b), after %s: the first step of the next run hands the receiver %r instead of the sender's "
+                             "pre-existing output %r, and b is called %d times in a %d-step run"
+                             % ("one stand-alone b.call()" if route == "standalone-call" else "a run that raised inside b (a already called in that step)",
+                                seen[0] if seen else None, before, cnt["n"] - nb, len(X)), sc, [before], seen[:1]))
+    return out
+
+
 def judge(case):
     if case.get("kind") in ("modeltrain", "fitfb"):       # Model.train history / fit-with-feedback scenario: decided by the correspondence only
         return None
@@ -668,6 +731,7 @@ def oracle(ctx, scale=1):
                   _judge_standalone_train(rng, "%d_%d" % (ctx.seed, i)), _judge_fit_submodel_sender(rng, "%d_%d" % (ctx.seed, i))):
             if v:
                 out.append(v)
+        out += _judge_flag_parity(rng, "%d_%d" % (ctx.seed, i))
     return {"evaluations": n + ctx.n(3, 20), "violations": out,
             "rule": "feedback value seen by a receiver (recovered from out = x + 100 fb) vs sender's previous output / forced value; fit and train forcing"}
 
@@ -688,6 +752,9 @@ def replay(payload):
         return {"violates": bool(vs), "detail": vs[:1]}
     if sc.get("kind") == "fit-submodel-sender":
         vs = [v for v in (_judge_fit_submodel_sender(core.random.Random(i), "rm%d" % i) for i in range(3)) if v]
+        return {"violates": bool(vs), "detail": vs[:1]}
+    if sc.get("kind") == "flag-parity":
+        vs = [v for i in range(2) for v in _judge_flag_parity(core.random.Random(i), "rf%d" % i) if v["key"] == payload.get("key", v["key"])]
         return {"violates": bool(vs), "detail": vs[:1]}
     if sc.get("kind") == "standalone-train":
         vs = [v for v in (_judge_standalone_train(core.random.Random(i), "rs%d" % i) for i in range(3)) if v]
